@@ -197,6 +197,13 @@ def run_set(ctx, item, nvals, ninputs):
             ctx.count("evaluations")
             ctx.count("roundtrip_checks")
             w = dict(witness, base=b.name, type=str(t), value=str(v)[:400], bytes=r1["bytes"].hex()[:300])
+            if r1.get("live_hex") is not None and r2["st"] == "ok" and not has_nan(t, r2["value"]):
+                # Python: the same relation on live objects, the decoder reading the serializer's own fragments without a copy
+                ctx.count("live_roundtrips")
+                if r1["live_hex"] != r1["bytes"].hex() or r1.get("live_stable") is False:
+                    ctx.refute(None, "%s: ser(des(ser(v))) != ser(v) for %s when the objects are passed on without copying" % (b.name, t),
+                               dict(w, again=str(r1["live_hex"])[:300], decoded_object_stable=r1.get("live_stable")))
+                    continue
             if r2["st"] != "ok":
                 ctx.refute(None, "%s: own serialization of %s is not accepted by own deserializer (%s)" % (b.name, t, r2["st"]), w)
                 continue
